@@ -61,3 +61,32 @@ Definition check_pump (c : pcase) : bool :=
 (** the obligation of the (un-modelled) doc parser on this trace: every run re-emitted a tiling of its range *)
 Definition pump_doc_ok (c : pcase) : bool :=
   match pump_run c with Some st => p_doc_ok st | None => true end.
+
+(** the hypotheses of [mark_level_exact] / [pump_emits_all] that concern the client, on this trace *)
+Definition pump_disc_ok (c : pcase) : bool :=
+  match pump_run c with Some st => p_disc st | None => true end.
+
+(** the unproved part of markers_balanced, on this trace: no prefix closes more than it opened *)
+Definition pump_prefix_ok (c : pcase) : bool := prefix_ok (pc_events c) 0.
+
+(** 4 bits: replay agrees, doc obligation met, client discipline respected, prefixes balanced *)
+Definition pump_report (c : pcase) : N :=
+  (if check_pump c then 1 else 0) + (if pump_doc_ok c then 2 else 0) + (if pump_disc_ok c then 4 else 0) + (if pump_prefix_ok c then 8 else 0).
+
+(** *** the Lua lexer: model token list = real token list *)
+From EV Require Import C01.LuaLexer.
+
+Fixpoint leaves_eqb (a b : list leaf) : bool :=
+  match a, b with
+  | [], [] => true
+  | (k, (s, l)) :: r, (k', (s', l')) :: r' => (k =? k') && (s =? s') && (l =? l') && leaves_eqb r r'
+  | _, _ => false
+  end.
+
+(** text, language level (index of LuaLanguageLevel), the non-ASCII characters of the text that Rust classifies as
+    alphabetic / alphanumeric, and the token list of the real lexer *)
+Record lcase := { lc_text : text; lc_level : N; lc_alpha : list N; lc_alnum : list N; lc_tokens : list leaf }.
+
+Definition check_lex (c : lcase) : bool :=
+  leaves_eqb (lua_tokenize (level_features (lc_level c)) (fun ch => mem ch (lc_alpha c)) (fun ch => mem ch (lc_alnum c)) (lc_text c))
+             (lc_tokens c).
